@@ -700,6 +700,16 @@ def call_module(it, fv, args, kwargs):
                                 return g(z3.If(z3.And(i_ >= 0, i_ < lz), m_.arg(ri), kz / lz))
             return g(kz / lz)
         return npm.new_arr(ctx, (scalar_arith('*', a0.n, L),), rel, a0.dtype, 'repeat')
+    if name == 'ndim' and len(args) == 1:
+        if isinstance(a0, SArr):
+            return a0.ndim
+        if isinstance(a0, SCompact):
+            return 1
+        if isinstance(a0, (list, tuple)):
+            raise Unsupported('np.ndim of a python sequence')
+        if a0 is None or isinstance(a0, (Opaque, SObj)):
+            raise Unsupported('np.ndim of %r' % (a0,))
+        return 0
     if name == 'einsum':
         sig = args[0]
         if sig == 'ni,ni->n' and len(args) == 3 and all(isinstance(x, SArr) and x.ndim == 2 for x in args[1:]):
